@@ -348,7 +348,17 @@ func writerScope(p *Program) []*ssa.Function {
 			}
 		}
 	}
-	return uniqFuncs(out)
+	// a helper nobody calls any more (left over after a refactoring) writes nothing
+	var live []*ssa.Function
+	for _, fn := range uniqFuncs(out) {
+		if fn.Object() != nil && !fn.Object().Exported() && fn.Parent() == nil && fn.Name() != "init" {
+			if n := p.CallGraph().Nodes[fn]; n == nil || len(n.In) == 0 {
+				continue
+			}
+		}
+		live = append(live, fn)
+	}
+	return live
 }
 
 func uniqFuncs(fs []*ssa.Function) []*ssa.Function {
